@@ -276,6 +276,39 @@ def replayFiles (c : Cfg) (minAge : Nat) (s : St) : St :=
   replayEntries c { s with files := s.files.filter (fun f => !oldEnough minAge s.now f) }
     ((sortByMtime (s.files.filter (oldEnough minAge s.now))).flatMap (·.entries))
 
+/-- a replay pass in which callback invocation number `fail` (counted over the pass, one invocation per
+entry) is rejected: a failed COLUMNAR entry is skipped and the pass goes on, a failed ROW entry stops its
+file; result = (state, next invocation index, every entry of the file succeeded) -/
+def replayEntriesF (c : Cfg) (fail : Nat) : St → Nat → List Entry → St × Nat × Bool
+  | s, k, [] => (s, k, true)
+  | s, k, e :: es =>
+    if k = fail then
+      if e.perRow then (s, k + 1, false)
+      else ((replayEntriesF c fail s (k + 1) es).1, (replayEntriesF c fail s (k + 1) es).2.1, false)
+    else replayEntriesF c fail (replayEntry c s e) (k + 1) es
+
+/-- a file is deleted only if every entry was replayed; otherwise it stays (collected in `files`) -/
+def replayFileF (c : Cfg) (fail : Nat) (acc : St × Nat) (f : WFile) : St × Nat :=
+  ((if (replayEntriesF c fail acc.1 acc.2 f.entries).2.2 then (replayEntriesF c fail acc.1 acc.2 f.entries).1
+    else { (replayEntriesF c fail acc.1 acc.2 f.entries).1 with
+             files := (replayEntriesF c fail acc.1 acc.2 f.entries).1.files ++ [f] }),
+   (replayEntriesF c fail acc.1 acc.2 f.entries).2.1)
+
+def replayFilesF (c : Cfg) (minAge fail : Nat) (s : St) : St :=
+  { ((sortByMtime (s.files.filter (oldEnough minAge s.now))).foldl (replayFileF c fail) ({ s with files := [] }, 0)).1 with
+    files := ((sortByMtime (s.files.filter (oldEnough minAge s.now))).foldl (replayFileF c fail) ({ s with files := [] }, 0)).1.files
+               ++ s.files.filter (fun f => !oldEnough minAge s.now f) }
+
+def tickActF (c : Cfg) (fail : Nat) (s : St) : TickAct → St
+  | .purge => purgeOld c s
+  | .replay => replayFilesF c c.minFileAge fail s
+  | .reset => { s with flag := false }
+
+/-- maintenance tick during which the replay callback rejects invocation `fail` (RecoverWithOptions still
+returns nil, so the flag is reset) -/
+def tickF (c : Cfg) (fail : Nat) (s : St) : St :=
+  if c.walOn then (if s.flag then c.facts.tickFlag else c.facts.tickElse).foldl (tickActF c fail) s else s
+
 def tickAct (c : Cfg) (s : St) : TickAct → St
   | .purge => purgeOld c s
   | .replay => replayFiles c c.minFileAge s
@@ -343,6 +376,9 @@ def openWal (s : St) : St :=
 def restart (c : Cfg) (s : St) : St :=
   if c.walOn then replayFiles c 0 (openWal (freshProc s)) else freshProc s
 
+def restartF (c : Cfg) (fail : Nat) (s : St) : St :=
+  if c.walOn then replayFilesF c 0 fail (openWal (freshProc s)) else freshProc s
+
 /-! ### events -/
 
 inductive Ev
@@ -358,7 +394,14 @@ inductive Ev
   | shutdown (drained : Nat)
   | crash
   | restart
+  | tickF (fail : Nat)      -- tick / restart whose replay callback rejects invocation `fail` (transient)
+  | restartF (fail : Nat)
 deriving DecidableEq, Repr
+
+def Ev.injects : Ev → Bool
+  | .tickF _ => true
+  | .restartF _ => true
+  | _ => false
 
 /-- is a queue-full drop reported to the client? -/
 def reportsFull (c : Cfg) : Bool :=
@@ -402,6 +445,7 @@ def stepUp (c : Cfg) (s : St) : Ev → St
   | .step1 => step1 c s
   | .ageFlush => ageFlush c s
   | .tick => tick c s
+  | .tickF n => tickF c n s
   | .shutdown d => shutdown c s d
   | .crash => crash s
   | _ => s
@@ -416,6 +460,7 @@ def step (c : Cfg) (s : St) (e : Ev) (obs : List Nat := []) : St :=
   | .mode m => { begin s obs 1 with failAfter := m, stalled := false }
   | .stall => { begin s obs 1 with failAfter := some 0, stalled := true }
   | .restart => if s.up then begin s obs 0 else restart c (begin s obs 1)
+  | .restartF n => if s.up then begin s obs 0 else restartF c n (begin s obs 1)
   | e => if s.up then stepUp c (begin s obs 1) e else begin s obs 0
 
 def run (c : Cfg) (s : St) : List Ev → St
